@@ -10,7 +10,7 @@
    is lost and the law is false. *)
 From Coq Require Import List Arith NArith Bool Lia Permutation.
 From NngV Require Import Proto.Common Ledger.Ledger Ledger.LedgerProofs Ledger.LawTac Ledger.Views.
-From NngV Require Proto.ReqRepBacktrace Proto.ReqModel Proto.RepModel Proto.ReqRepProofs
+From NngV Require Proto.ReqRepBacktrace Proto.ReqModel Proto.RepModel Proto.ReqRepProofs Proto.RepProofs
   Proto.SurveyBacktrace Proto.SurveyModel Proto.RespondModel Proto.SurveyProofs.
 Import ListNotations.
 
@@ -480,4 +480,1011 @@ Section RepSec.
 
 
 
+
+  Theorem rep_proto_law : forall pf, pf_saio pf = true -> proto_law view_rep (rep_step pf) RInv rep_ok.
+  Proof.
+    intros pf Hpf s o s' outs HI Hok H. destruct (rep_step_main pf s o s' outs Hpf HI Hok H) as [A B].
+    split; [exact A|]. split; [apply law_sum_eq, B|apply clones_held_none; reflexivity].
+  Qed.
+
+  (* a history the contract allows: a request arrives and is received, the reply goes out at once
+     (pipe idle); a second request is received and its reply is queued behind the busy pipe; the
+     transport completion sends the queued reply; option change, a context, a cancelled receive,
+     pipe close, socket close *)
+  Definition rep_hist : list pop :=
+    [PPipeStart 1%N PROTO_REQ;
+     PRecvDone 1%N 0%N (mkPmsg [] [128; 0; 0; 1; 7]%N);
+     PRecv None 10%N false;
+     PSend None 11%N false (mkPmsg [] [42%N]);
+     PRecvDone 1%N 0%N (mkPmsg [] [128; 0; 0; 2; 8]%N);
+     PRecv None 12%N false;
+     PSend None 13%N false (mkPmsg [] [43%N]);
+     PSendDone 1%N 0%N;
+     PSetOpt None (OMaxTtl 5);
+     PCtxOpen 0%N;
+     PRecv (Some 0%N) 14%N false;
+     PCancel 14%N E_CANCELED;
+     PRecvDone 1%N 0%N (mkPmsg [] [128; 0; 0; 3; 9]%N);
+     PRecv None 15%N false;
+     PSend None 16%N false (mkPmsg [] [44%N]);
+     PPipeClose 1%N;
+     PSockClose].
+  Definition pf_all : pfix := RepProofs.pf_repaired.
+  Example rep_ok_nonvacuous :
+    ops_ok (rep_step pf_all) rep_ok rep_init rep_hist /\
+    snd (rep_step pf_all (run (rep_step pf_all) rep_init (firstn 3 rep_hist)) (nth 3 rep_hist PSockClose))
+      = [TranSend 1%N (mkPmsg [128; 0; 0; 1]%N [42%N]); Complete 11%N E_OK None] /\
+    snd (rep_step pf_all (run (rep_step pf_all) rep_init (firstn 6 rep_hist)) (nth 6 rep_hist PSockClose)) = [] /\
+    snd (rep_step pf_all (run (rep_step pf_all) rep_init (firstn 7 rep_hist)) (nth 7 rep_hist PSockClose))
+      = [TranSend 1%N (mkPmsg [128; 0; 0; 2]%N [43%N]); Complete 13%N E_OK None] /\
+    snd (rep_step pf_all (run (rep_step pf_all) rep_init (firstn 15 rep_hist)) (nth 15 rep_hist PSockClose))
+      = [Complete 16%N E_OK None; Free (mkPmsg [128; 0; 0; 3]%N [44%N])].
+  Proof.
+    split; [|vm_compute; repeat split].
+    vm_compute.
+    repeat match goal with |- _ /\ _ => split end; try exact I; try discriminate.
+    all: try (intros HH; intuition discriminate).
+    all: intros k c HH; repeat (destruct HH as [HH|HH]; [inversion HH; subst; discriminate|]); destruct HH.
+  Qed.
 End RepSec.
+
+(* ============================== RESPONDENT ============================== *)
+Section RespSec.
+  Import SurveyBacktrace SurveyModel RespondModel.
+
+  Lemma kget_split {A} k (l : list (N * A)) c : kget k l = Some c ->
+    exists l1 l2, l = l1 ++ (k, c) :: l2 /\ forall c0 c', kset k c' (l1 ++ (k, c0) :: l2) = l1 ++ (k, c') :: l2.
+  Proof.
+    induction l as [|[k0 v] l IH]; cbn; [discriminate|]. destruct (N.eqb_spec k0 k) as [->|Hk].
+    - intros E. inversion E; subst. exists [], l. split; [reflexivity|]. intros c0 c'. cbn. now rewrite N.eqb_refl.
+    - intros E. destruct (IH E) as [l1 [l2 [-> Hs]]]. exists ((k0, v) :: l1), l2. split; [reflexivity|].
+      intros c0 c'. cbn. destruct (N.eqb_spec k0 k); [contradiction|]. now rewrite Hs.
+  Qed.
+  Lemma kset_absent {A} k (v : A) l : ~ In k (map fst l) -> kset k v l = l ++ [(k, v)].
+  Proof.
+    induction l as [|[k0 v0] l IH]; cbn; intros H; [reflexivity|].
+    destruct (N.eqb_spec k0 k); [exfalso; apply H; auto|]. rewrite IH; tauto.
+  Qed.
+  Lemma in_kget' {A} k (c : A) l : NoDup (map fst l) -> In (k, c) l -> kget k l = Some c.
+  Proof.
+    induction l as [|[k0 v] l IH]; cbn; intros Hn Hi; [destruct Hi|]. inversion Hn; subst.
+    destruct Hi as [E|Hi].
+    - inversion E; subst. now rewrite N.eqb_refl.
+    - destruct (N.eqb_spec k0 k); [subst; exfalso; apply H1; apply in_map_iff; exists (k, c); auto|]. auto.
+  Qed.
+  Lemma kget_in' {A} k (c : A) l : kget k l = Some c -> In (k, c) l.
+  Proof.
+    induction l as [|[k0 v] l IH]; cbn; [discriminate|]. destruct (N.eqb_spec k0 k) as [->|]; intros E.
+    - inversion E; auto.
+    - auto.
+  Qed.
+  Lemma kget_none_notin' {A} k (l : list (N * A)) : kget k l = None -> ~ In k (map fst l).
+  Proof.
+    induction l as [|[k0 v] l IH]; cbn; [tauto|]. destruct (N.eqb_spec k0 k); [discriminate|]. intros E [H|H]; [auto|exact (IH E H)].
+  Qed.
+
+  (* the pipes: parked surveys and messages in flight *)
+  Definition pheld (l : list (pid * rpipe)) : list pmsg := flat_map (fun px => rp_rmsg (snd px)) l.
+  Definition ptx (l : list (pid * rpipe)) : list (pid * pmsg) :=
+    flat_map (fun px => map (fun m => (fst px, m)) (rp_held (snd px))) l.
+  Lemma pheld_app a b : pheld (a ++ b) = pheld a ++ pheld b. Proof. apply flat_map_app. Qed.
+  Lemma ptx_app a b : ptx (a ++ b) = ptx a ++ ptx b. Proof. apply flat_map_app. Qed.
+  Lemma pheld_mid l1 p x l2 : pheld (l1 ++ (p, x) :: l2) = pheld l1 ++ rp_rmsg x ++ pheld l2.
+  Proof. rewrite pheld_app. reflexivity. Qed.
+  Lemma ptx_mid l1 p x l2 : ptx (l1 ++ (p, x) :: l2) = ptx l1 ++ map (fun m => (p, m)) (rp_held x) ++ ptx l2.
+  Proof. rewrite ptx_app. reflexivity. Qed.
+  Lemma tx_of_app p a b : tx_of p (a ++ b) = tx_of p a ++ tx_of p b.
+  Proof. unfold tx_of. now rewrite filter_app, map_app. Qed.
+  Lemma tx_of_self p h : tx_of p (map (fun m => (p, m)) h) = h.
+  Proof. unfold tx_of. induction h as [|m h IH]; cbn; [reflexivity|]. rewrite N.eqb_refl. cbn. now rewrite IH. Qed.
+  Lemma tx_of_ptx_notin p l : ~ In p (map fst l) -> tx_of p (ptx l) = [].
+  Proof.
+    induction l as [|[q x] l IH]; cbn [map fst]; intros H; [reflexivity|].
+    change (ptx ((q, x) :: l)) with (map (fun m => (q, m)) (rp_held x) ++ ptx l).
+    rewrite tx_of_app, IH by (intros Hx; apply H; right; exact Hx). rewrite app_nil_r.
+    unfold tx_of. induction (rp_held x) as [|m h IHh]; cbn; [reflexivity|].
+    destruct (N.eqb_spec q p); [exfalso; apply H; left; auto|]. exact IHh.
+  Qed.
+  Lemma tx_of_ptx_mid p l1 x l2 : NoDup (map fst (l1 ++ (p, x) :: l2)) -> tx_of p (ptx (l1 ++ (p, x) :: l2)) = rp_held x.
+  Proof.
+    intros H. rewrite map_app in H. cbn [map fst] in H. pose proof (NoDup_remove_2 _ _ _ H) as Hn. rewrite in_app_iff in Hn.
+    rewrite ptx_mid, !tx_of_app, tx_of_self, !tx_of_ptx_notin by tauto. now rewrite app_nil_r.
+  Qed.
+
+  Definition pgood (x : rpipe) : Prop := (rp_busy x = false -> rp_held x = []) /\ length (rp_rmsg x) <= 1.
+  Definition PInv (l : list (pid * rpipe)) : Prop := NoDup (map fst l) /\ forall p x, In (p, x) l -> pgood x.
+  Lemma pinv_set l1 p x x' l2 : PInv (l1 ++ (p, x) :: l2) -> pgood x' -> PInv (l1 ++ (p, x') :: l2).
+  Proof.
+    intros [K G] Hx. split; [rewrite map_app in *; exact K|].
+    intros q y Hi. apply in_app_or in Hi. destruct Hi as [Hi|[Hi|Hi]].
+    - apply (G q y). apply in_or_app; auto.
+    - inversion Hi; subst. exact Hx.
+    - apply (G q y). apply in_or_app; right; right; auto.
+  Qed.
+  Lemma pinv_snoc l p x : PInv l -> ~ In p (map fst l) -> pgood x -> PInv (l ++ [(p, x)]).
+  Proof.
+    intros [K G] Hp Hx. split; [rewrite map_app; cbn; apply nodup_snoc; auto|].
+    intros q y Hi. apply in_app_or in Hi. destruct Hi as [Hi|[Hi|[]]]; [eauto|inversion Hi; subst; exact Hx].
+  Qed.
+  Lemma unqueue_keys k l : map fst (unqueue_ctx k l) = map fst l.
+  Proof. unfold unqueue_ctx. rewrite map_map. reflexivity. Qed.
+  Lemma unqueue_pheld k l : pheld (unqueue_ctx k l) = pheld l.
+  Proof. unfold pheld, unqueue_ctx. induction l as [|[q x] l IH]; [reflexivity|]. cbn [map flat_map fst snd rp_rmsg]. now rewrite IH. Qed.
+  Lemma unqueue_ptx k l : ptx (unqueue_ctx k l) = ptx l.
+  Proof. unfold ptx, unqueue_ctx. induction l as [|[q x] l IH]; [reflexivity|]. cbn [map flat_map fst snd rp_held]. now rewrite IH. Qed.
+  Lemma pinv_unqueue k l : PInv l -> PInv (unqueue_ctx k l).
+  Proof.
+    intros [K G]. split; [now rewrite unqueue_keys|]. intros p x Hi. unfold unqueue_ctx in Hi.
+    apply in_map_iff in Hi. destruct Hi as [[q y] [E Hi]]. inversion E; subst. exact (G _ _ Hi).
+  Qed.
+
+  Lemma find_saio_none' a l : find_saio a l = None -> ~ In a (aids rc_saio l).
+  Proof.
+    intros H Hi. unfold aids in Hi. apply in_map_iff in Hi. destruct Hi as [[a' m] [E Hi]]. cbn in E. subst a'.
+    apply (in_attl rc_saio rc_raio) in Hi. destruct Hi as [k [c [Hi Es]]].
+    pose proof (find_none _ _ H _ Hi) as Hf. cbn in Hf. rewrite Es, N.eqb_refl in Hf. discriminate.
+  Qed.
+  Definition SInv (s : resp) : Prop := CInv rc_saio rc_raio (rs_ctxs s) /\ PInv (rs_pipes s).
+  (* the environment: an aio is submitted once at a time; cancel with an error; a context id is opened
+     once; a pipe id is started once; the transport completes a receive only when one is posted on the
+     pipe -- the model posts the next one (TranRecv p) exactly when it hands the parked survey on, so
+     "a receive is posted on p" is "p parks no survey" *)
+  Definition resp_ok (s : resp) (o : pop) : Prop :=
+    match o with
+    | PSend _ a _ _ => ~ In a (aids rc_saio (rs_ctxs s)) /\ (forall k c, In (k, c) (rs_ctxs s) -> rc_raio c <> Some a)
+    | PRecv _ a _ => ~ In a (aids rc_saio (rs_ctxs s))
+    | PCancel _ rv => rv <> 0%N
+    | PCtxOpen c => ~ In (c + 1)%N (map fst (rs_ctxs s))
+    | PPipeStart p _ => ~ In p (map fst (rs_pipes s))
+    | PRecvDone p _ _ => match kget p (rs_pipes s) with Some x => rp_rmsg x = [] | None => True end
+    | _ => True
+    end.
+
+  Lemma resp_inv_init : SInv resp_init.
+  Proof.
+    split; [split; [|split]|split]; cbn.
+    - constructor; [tauto|constructor].
+    - constructor.
+    - tauto.
+    - constructor.
+    - tauto.
+  Qed.
+
+  Lemma w_resp F s : w_omega F view_resp s =
+    wsum (fun m => F (OProto, body m)) (pheld (rs_pipes s))
+    + wsum (fun x => F (OPipe (fst x), body (snd x))) (ptx (rs_pipes s))
+    + wsum (fun x => F (OAio (fst x), body (snd x))) (attl rc_saio (rs_ctxs s)).
+  Proof. reflexivity. Qed.
+  Lemma skey_resp s o a : (forall c a' nb m, o <> PSend c a' nb m) ->
+    send_key view_resp s o a = att_key a (attl rc_saio (rs_ctxs s)).
+  Proof. intros H. now rewrite send_key_other. Qed.
+  Lemma wsum_pheld_mid (G : pmsg -> nat) l1 p x l2 :
+    wsum G (pheld (l1 ++ (p, x) :: l2)) = wsum G (pheld l1) + wsum G (rp_rmsg x) + wsum G (pheld l2).
+  Proof. rewrite pheld_mid, !wsum_app. lia. Qed.
+  Lemma wsum_ptx_mid (G : pid * pmsg -> nat) l1 p x l2 :
+    wsum G (ptx (l1 ++ (p, x) :: l2)) = wsum G (ptx l1) + wsum (fun m => G (p, m)) (rp_held x) + wsum G (ptx l2).
+  Proof. rewrite ptx_mid, !wsum_app, wsum_map. lia. Qed.
+
+  (* resp0_pipe_close's loop over the pipe's send queue *)
+  Lemma flush_sendq_spec F s0 o (Ho : forall c a' nb m, o <> PSend c a' nb m) ks : forall cs cs' outs,
+    flush_sendq ks cs = (cs', outs) ->
+    CInv rc_saio rc_raio cs ->
+    (forall a m, In (a, m) (attl rc_saio cs) -> att_key a (attl rc_saio (rs_ctxs s0)) = Some (body m)) ->
+    CInv rc_saio rc_raio cs' /\
+    wsum (fun x => F (OAio (fst x), body (snd x))) (attl rc_saio cs) + s_take F view_resp s0 o outs + o_tx F outs
+    = wsum (fun x => F (OAio (fst x), body (snd x))) (attl rc_saio cs') + s_del F view_resp s0 o outs + o_rel F outs.
+  Proof.
+    induction ks as [|k r IH]; intros cs cs' outs H HC HK; cbn [flush_sendq] in H.
+    - inversion H; subst. cbn. split; auto.
+    - destruct (kget k cs) as [c|] eqn:EL; [|eauto].
+      destruct (rc_saio c) as [[a m]|] eqn:ES; [|eauto].
+      destruct (flush_sendq r (kset k (mkRctx (rc_pipe c) (rc_bt c) None (rc_raio c)) cs)) as [cs3 o3] eqn:EC.
+      inversion H; subst; clear H.
+      destruct (kget_split _ _ _ EL) as [l1 [l2 [E1 E2]]]. subst cs. rewrite E2 in EC.
+      destruct (IH _ _ _ EC) as (H4 & H5).
+      + eapply cinv_set; [exact HC|cbn; auto|cbn; auto].
+      + intros a0 m0 Hi. apply HK. rewrite attl_mid in *.
+        cbn [rc_saio opt_list app] in Hi. rewrite !in_app_iff in *. tauto.
+      + split; auto.
+        cbn [s_take s_del o_tx o_rel]. rewrite (skey_resp s0 o a Ho).
+        rewrite (HK a m) by (rewrite attl_mid, ES; rewrite !in_app_iff; right; left; left; reflexivity).
+        change (E_OK =? 0)%N with true. cbv iota.
+        rewrite !wsum_attl_mid in *. cbn [rc_saio] in H5. rewrite ES. cbn [opt_list] in *.
+        rewrite ?wsum_cons, ?wsum_nil in *. cbn [fst snd]. lia.
+  Qed.
+
+  (* resp0_ctx_close *)
+  Lemma rctx_close_spec s k cx s1 o1 :
+    CInv rc_saio rc_raio (rs_ctxs s) -> kget k (rs_ctxs s) = Some cx -> rctx_close s k cx = (s1, o1) ->
+    exists l1 l2, rs_ctxs s = l1 ++ (k, cx) :: l2 /\
+      rs_ctxs s1 = l1 ++ (k, mkRctx (rc_pipe cx) (rc_bt cx) None None) :: l2 /\
+      (rs_pipes s1 = rs_pipes s \/ rs_pipes s1 = unqueue_ctx k (rs_pipes s)) /\
+      forall F o, (forall c a' nb m, o <> PSend c a' nb m) ->
+        wsum (fun x => F (OAio (fst x), body (snd x))) (attl rc_saio (rs_ctxs s)) + s_take F view_resp s o o1 + o_tx F o1
+        = wsum (fun x => F (OAio (fst x), body (snd x))) (attl rc_saio (rs_ctxs s1)) + s_del F view_resp s o o1 + o_rel F o1.
+  Proof.
+    intros HC EL H. destruct (kget_split _ _ _ EL) as [l1 [l2 [E1 E2]]]. exists l1, l2.
+    pose proof (kget_in' _ _ _ EL) as Hin. destruct HC as (K & N & R).
+    unfold rctx_close in H.
+    destruct (rc_saio cx) as [[sa m0]|] eqn:ES; destruct (rc_raio cx) as [ra|] eqn:ER; inversion H; subst; clear H;
+      cbn [rs_ctxs rs_pipes rset_ctxs rset_pipes rset_recvq];
+      (split; [exact E1|]); (split; [rewrite E1; apply E2|]); (split; [auto|]);
+      intros F o Ho; cbn [app s_take s_del o_tx o_rel]; rewrite ?(skey_resp s o _ Ho);
+      rewrite ?(cinv_att_key rc_saio rc_raio _ _ _ _ _ (conj K (conj N R)) Hin ES);
+      rewrite ?(att_key_notin _ _ (R _ _ _ Hin ER));
+      change (E_CLOSED =? 0)%N with false; cbv iota;
+      rewrite E1, !E2, !wsum_attl_mid; cbn [rc_saio]; rewrite ES; cbn [opt_list]; wnorm; cbn [fst snd]; lia.
+  Qed.
+
+  Ltac rsproj := cbn [rs_ctxs rs_pipes rs_recvpipes rs_recvq rs_ttl rs_readable rs_writable
+                      rset_ctxs rset_pipes rset_w rset_r rset_recvpipes rset_recvq] in *.
+  Ltac ifresp H := repeat match type of H with context [if ?b then ?x else ?y] => match type of x with resp => destruct b end end.
+  Ltac slaw1 := cbv zeta;
+    match goal with |- context [v_extra view_resp ?s ?o ?outs] => change (v_extra view_resp s o outs) with (@nil pmsg) end;
+    match goal with |- context [v_clones view_resp ?s ?o ++ v_dups view_resp ?s ?o] =>
+      change (v_clones view_resp s o ++ v_dups view_resp s o) with (@nil key) end;
+    cbn [map]; rewrite app_nil_r, wsum_nil, !w_resp.
+  Ltac slaw0 := intros F; slaw1.
+  Ltac slawfin := rsproj; cbn [op_add op_del s_take s_del o_tx o_rel]; rewrite ?send_key_self;
+    wnorm; unfold body; cbn [fst snd pm_body pm_hdr N.eqb E_OK E_STATE E_AGAIN E_CLOSED rp_held rp_rmsg rc_saio opt_list]; 
+    wnorm; cbn [fst snd pm_body]; try lia.
+
+  Lemma resp_step_main fx s o s' outs :
+    rf_sbusy fx = true -> SInv s -> resp_ok s o -> resp_step fx s o = (s', outs) ->
+    SInv s' /\ law_sum view_resp s o s' outs.
+  Proof.
+    intros Hfx HI Hok H. pose proof HI as [HC HP]. pose proof HC as (K & N & R). pose proof HP as [KP GP].
+    destruct o as [c a nb m|c a nb|a rv|p peer|p|p rv|p rv m|c op|c|c| |now]; cbn [resp_step resp_ok] in *.
+    - (* PSend *)
+      cbv zeta in H. destruct (kget (ckey c) (rs_ctxs s)) as [cx|] eqn:EL.
+      2:{ inversion H; subst. split; [exact HI|]. slaw0. slawfin. }
+      destruct (kget_split _ _ _ EL) as [l1 [l2 [E1 E2]]].
+      assert (HC' : CInv rc_saio rc_raio (l1 ++ (ckey c, cx) :: l2)) by (rewrite <- E1; exact HC).
+      rewrite Hfx in H. cbn [andb] in H.
+      assert (GEN : forall s'' outs'' c',
+                 (s', outs) = (s'', outs'') -> (rs_ctxs s'' = l1 ++ (ckey c, c') :: l2 /\ rc_saio c' = rc_saio cx /\ rc_raio c' = rc_raio cx \/ rs_ctxs s'' = rs_ctxs s) ->
+                 rs_pipes s'' = rs_pipes s ->
+                 (outs'' = [Complete a E_STATE None] \/ outs'' = [Complete a E_AGAIN None] \/
+                  exists m', outs'' = [Complete a E_OK None; Free m'] /\ pm_body m' = pm_body m) ->
+                 SInv s' /\ law_sum view_resp s (PSend c a nb m) s' outs).
+      { intros s'' outs'' c' Hs Ec Ep Ho. inversion Hs; subst s' outs; clear Hs. split.
+        - split; [|rewrite Ep; exact HP]. destruct Ec as [(Ec & Esa & Era)|Ec]; rewrite Ec; [|exact HC].
+          eapply cinv_set; [exact HC'|auto|auto].
+        - slaw0. rewrite Ep. destruct Ec as [(Ec & Esa & Era)|Ec]; rewrite Ec; rewrite ?E1, ?wsum_attl_mid, ?Esa;
+          destruct Ho as [->|[->|[m' [-> Em]]]]; slawfin; rewrite ?Em; lia. }
+      ifresp H. all: rsproj.
+      all: match type of H with (if ?b then _ else _) = _ => destruct b end;
+           [eapply (GEN _ _ cx); [symmetry; exact H|right; reflexivity|reflexivity|auto]|].
+      all: destruct (rc_bt cx) as [|b0 bt] eqn:EB; [eapply (GEN _ _ cx); [symmetry; exact H|right; reflexivity|reflexivity|auto]|].
+      all: destruct (rc_saio cx) as [sx|] eqn:ES; [eapply (GEN _ _ cx); [symmetry; exact H|right; reflexivity|reflexivity|auto]|].
+      all: match type of H with (if ?b then _ else _) = _ => destruct b end;
+           [eapply (GEN _ _ cx); [symmetry; exact H|right; reflexivity|reflexivity|auto]|].
+      all: destruct (live_pipe (rc_pipe cx) (rs_pipes s)) as [x|] eqn:LP;
+           [|eapply GEN; [symmetry; exact H|left; rsproj; rewrite E1, !E2; auto|reflexivity|right; right; eexists; split; reflexivity]].
+      all: clear GEN; unfold live_pipe in LP; destruct (kget (rc_pipe cx) (rs_pipes s)) as [x0|] eqn:EP; [|discriminate];
+           destruct (rp_closed x0) eqn:ECL; [discriminate|]; injection LP as ->;
+           destruct (kget_split _ _ _ EP) as [q1 [q2 [P1 P2]]];
+           assert (HP' : PInv (q1 ++ (rc_pipe cx, x) :: q2)) by (rewrite <- P1; exact HP);
+           pose proof (GP _ _ (kget_in' _ _ _ EP)) as [GX1 GX2];
+           rewrite E1 in Hok; destruct Hok as [Hok1 Hok2].
+      all: destruct (rp_busy x) eqn:EBU; cbn [negb] in H; injection H as <- <-; rsproj.
+      all: (split; [split; rsproj; [rewrite E1, !E2; eapply cinv_set; [exact HC'|cbn [rc_saio rc_raio]; rewrite ?ES; auto|cbn [rc_saio rc_raio]; auto]
+                                   |rewrite P1, !P2; eapply pinv_set; [exact HP'|split; cbn; auto; discriminate]]|]).
+      all: try (right; right; eexists; eexists; split; [reflexivity|]; split; [reflexivity|]; split; assumption).
+      all: slaw0; slawfin; rewrite E1, !E2, P1, !P2, !wsum_attl_mid, !wsum_pheld_mid, !wsum_ptx_mid;
+           cbn [rc_saio rp_held rp_rmsg]; rewrite ?ES, ?(GX1 eq_refl); cbn [opt_list]; wnorm; cbn [fst snd pm_body]; try lia.
+    - (* PRecv *)
+      assert (KN : forall s'' rv, rs_ctxs s'' = rs_ctxs s -> rs_pipes s'' = rs_pipes s ->
+                   SInv s'' /\ law_sum view_resp s (PRecv c a nb) s'' [Complete a rv None]).
+      { intros s'' rv Ec Ep. split; [split; [rewrite Ec; exact HC|rewrite Ep; exact HP]|].
+        slaw0. rewrite Ec, Ep. cbn [op_add op_del s_take s_del o_tx o_rel]. rewrite skey_resp by (intros; discriminate).
+        rewrite (att_key_notin _ _ Hok). lia. }
+      cbv zeta in H. destruct (kget (ckey c) (rs_ctxs s)) as [cx|] eqn:EL.
+      2:{ inversion H; subst. apply KN; reflexivity. }
+      destruct (kget_split _ _ _ EL) as [l1 [l2 [E1 E2]]].
+      assert (HC' : CInv rc_saio rc_raio (l1 ++ (ckey c, cx) :: l2)) by (rewrite <- E1; exact HC).
+      destruct (rs_recvpipes s) as [|p rest] eqn:ERP.
+      + destruct nb; [inversion H; subst; apply KN; reflexivity|].
+        destruct (rc_raio cx) eqn:ER; [inversion H; subst; apply KN; reflexivity|].
+        inversion H; subst; clear H. split.
+        * split; rsproj; [|exact HP]. rewrite E1, !E2. eapply cinv_set; [exact HC'|cbn; auto|].
+          right; right. exists a. rewrite <- E1. cbn. auto.
+        * slaw0. slawfin. rewrite E1, !E2, !wsum_attl_mid. cbn [rc_saio]. lia.
+      + destruct (kget p (rs_pipes s)) as [x|] eqn:EP; [|inversion H; subst; apply KN; reflexivity].
+        destruct (rp_rmsg x) as [|msg tl] eqn:ERM; [inversion H; subst; apply KN; reflexivity|].
+        destruct (kget_split _ _ _ EP) as [q1 [q2 [P1 P2]]].
+        assert (HP' : PInv (q1 ++ (p, x) :: q2)) by (rewrite <- P1; exact HP).
+        pose proof (GP _ _ (kget_in' _ _ _ EP)) as [GX1 GX2]. rewrite ERM in GX2.
+        assert (tl = []) by (destruct tl; [reflexivity|cbn in GX2; lia]). subst tl.
+        inversion H; subst; clear H. split.
+        * split; rsproj.
+          -- rewrite E1, !E2. eapply cinv_set; [exact HC'|cbn; auto|cbn; auto].
+          -- rewrite P1, !P2. eapply pinv_set; [exact HP'|split; cbn; auto; lia].
+        * slaw0. slawfin. rewrite E1, !E2, P1, !P2, !wsum_attl_mid, !wsum_pheld_mid, !wsum_ptx_mid.
+          cbn [rc_saio rp_held rp_rmsg]. rewrite ERM. wnorm. lia.
+    - (* PCancel *)
+      destruct (find_saio a (rs_ctxs s)) as [[k cx]|] eqn:EF.
+      + unfold find_saio in EF. apply find_some in EF. destruct EF as [Hin Hf]. cbn [snd] in Hf.
+        pose proof (in_kget' _ _ _ K Hin) as EL.
+        destruct (kget_split _ _ _ EL) as [l1 [l2 [E1 E2]]].
+        assert (HC' : CInv rc_saio rc_raio (l1 ++ (k, cx) :: l2)) by (rewrite <- E1; exact HC).
+        destruct (rc_saio cx) as [[a' m0]|] eqn:ES; [|discriminate].
+        apply N.eqb_eq in Hf. subst a'.
+        inversion H; subst; clear H. split.
+        * split; rsproj; [|apply pinv_unqueue; exact HP]. rewrite E1, !E2. eapply cinv_set; [exact HC'|cbn; auto|cbn; auto].
+        * slaw0. cbn [op_add op_del s_take s_del o_tx o_rel]. rewrite skey_resp by (intros; discriminate).
+          rewrite (cinv_att_key _ _ _ _ _ _ _ HC Hin ES). destruct (N.eqb_spec rv 0); [contradiction|].
+          slawfin. rewrite unqueue_pheld, unqueue_ptx, E1, !E2, !wsum_attl_mid. cbn [rc_saio]. rewrite ES. cbn [opt_list]. wnorm. cbn [fst snd]. lia.
+      + pose proof (find_saio_none' _ _ EF) as Hn.
+        destruct (find_raio a (rs_ctxs s)) as [[k cx]|] eqn:EF2.
+        2:{ inversion H; subst. split; [exact HI|]. slaw0. slawfin. }
+        unfold find_raio in EF2. apply find_some in EF2. destruct EF2 as [Hin Hf].
+        pose proof (in_kget' _ _ _ K Hin) as EL.
+        destruct (kget_split _ _ _ EL) as [l1 [l2 [E1 E2]]].
+        assert (HC' : CInv rc_saio rc_raio (l1 ++ (k, cx) :: l2)) by (rewrite <- E1; exact HC).
+        inversion H; subst; clear H. split.
+        * split; rsproj; [|exact HP]. rewrite E1, !E2. eapply cinv_set; [exact HC'|cbn; auto|cbn; auto].
+        * slaw0. cbn [op_add op_del s_take s_del o_tx o_rel]. rewrite skey_resp by (intros; discriminate).
+          rewrite (att_key_notin _ _ Hn). slawfin. rewrite E1, !E2, !wsum_attl_mid. cbn [rc_saio]. lia.
+    - (* PPipeStart *)
+      destruct (negb (peer =? PROTO_SURVEYOR)%N); inversion H; subst; clear H; [split; [exact HI|slaw0; slawfin]|].
+      split.
+      + split; rsproj; [exact HC|]. apply pinv_snoc; auto. split; cbn; auto.
+      + slaw0. slawfin. rewrite pheld_app, ptx_app. wnorm. cbn. wnorm. lia.
+    - (* PPipeClose *)
+      destruct (kget p (rs_pipes s)) as [x|] eqn:EP; [|inversion H; subst; split; [exact HI|slaw0; slawfin]].
+      destruct (flush_sendq (rp_sendq x) (rs_ctxs s)) as [cs' o1] eqn:EFL.
+      destruct (kget_split _ _ _ EP) as [q1 [q2 [P1 P2]]].
+      assert (HP' : PInv (q1 ++ (p, x) :: q2)) by (rewrite <- P1; exact HP).
+      pose proof (GP _ _ (kget_in' _ _ _ EP)) as [GX1 GX2].
+      assert (HK : forall a m, In (a, m) (attl rc_saio (rs_ctxs s)) -> att_key a (attl rc_saio (rs_ctxs s)) = Some (body m))
+        by (intros a0 m0 Hi; apply att_key_in; [exact N|exact Hi]).
+      pose proof (fun F => flush_sendq_spec F s (PPipeClose p) ltac:(intros; discriminate) _ _ _ _ EFL HC HK) as SP.
+      inversion H; subst; clear H. split.
+      + split; rsproj; [apply (SP (fun _ => 0))|]. rewrite P1, !P2. eapply pinv_set; [exact HP'|split; cbn; auto].
+      + slaw0. destruct (SP F) as [_ S5]. slawfin. rewrite P1, !P2, !wsum_pheld_mid, !wsum_ptx_mid.
+        cbn [rp_held rp_rmsg]. unfold body in S5. wnorm. lia.
+    - (* PSendDone *)
+      assert (OPS : forall F,
+                op_add F view_resp s (PSendDone p rv)
+                = (if (rv =? 0)%N then 0 else wsum (fun m => F (OProto, body m)) (tx_of p (ptx (rs_pipes s)))) /\
+                op_del F view_resp s (PSendDone p rv) = wsum (fun m => F (OPipe p, body m)) (tx_of p (ptx (rs_pipes s))))
+        by (intros; split; reflexivity).
+      destruct (kget p (rs_pipes s)) as [x|] eqn:EP.
+      2:{ inversion H; subst. split; [exact HI|]. slaw0. destruct (OPS F) as [-> ->].
+          rewrite (tx_of_ptx_notin _ _ (kget_none_notin' _ _ EP)). destruct (rv =? 0)%N; slawfin. }
+      destruct (kget_split _ _ _ EP) as [q1 [q2 [P1 P2]]].
+      assert (HP' : PInv (q1 ++ (p, x) :: q2)) by (rewrite <- P1; exact HP).
+      assert (TXO : tx_of p (ptx (rs_pipes s)) = rp_held x) by (rewrite P1; apply tx_of_ptx_mid; rewrite <- P1; exact KP).
+      rewrite TXO in OPS.
+      destruct (N.eqb_spec rv 0) as [->|Hrv]; cbn [negb] in H.
+      2:{ inversion H; subst; clear H. split.
+          - split; rsproj; [exact HC|]. rewrite P1, !P2. eapply pinv_set; [exact HP'|].
+            split; cbn; auto. apply (GP _ _ (kget_in' _ _ _ EP)).
+          - slaw0. destruct (OPS F) as [-> ->]. destruct (N.eqb_spec rv 0); [contradiction|].
+            slawfin. rewrite P1, !P2, !wsum_pheld_mid, !wsum_ptx_mid. cbn [rp_held rp_rmsg]. wnorm. cbn [o_tx o_rel s_take s_del fst snd]. lia. }
+      change (0 =? 0)%N with true in OPS. cbv iota in OPS.
+      pose proof (GP _ _ (kget_in' _ _ _ EP)) as [GX1 GX2].
+      assert (FIN : forall s'' x', (s', outs) = (s'', []) -> rs_ctxs s'' = rs_ctxs s -> rs_pipes s'' = q1 ++ (p, x') :: q2 ->
+                    rp_held x' = [] -> rp_rmsg x' = rp_rmsg x -> SInv s' /\ law_sum view_resp s (PSendDone p 0) s' outs).
+      { intros s'' x' Hs Ec Ep Eh Er. inversion Hs; subst s' outs; clear Hs. split.
+        - split; [rewrite Ec; exact HC|]. rewrite Ep. eapply pinv_set; [exact HP'|]. split; [auto|rewrite Er; exact GX2].
+        - slaw0. destruct (OPS F) as [-> ->]. rewrite Ec, Ep, P1, !wsum_pheld_mid, !wsum_ptx_mid, Eh, Er. slawfin. }
+      destruct (rp_sendq x) as [|k rest] eqn:ESQ.
+      { ifresp H. all: eapply FIN; [symmetry; exact H|reflexivity|rsproj; rewrite P1, !P2; reflexivity|reflexivity|reflexivity]. }
+      destruct (kget k (rs_ctxs s)) as [cx|] eqn:EL;
+        [|eapply FIN; [symmetry; exact H|reflexivity|rsproj; rewrite P1, !P2; reflexivity|reflexivity|reflexivity]].
+      destruct (rc_saio cx) as [[a m]|] eqn:ES;
+        [|eapply FIN; [symmetry; exact H|reflexivity|rsproj; rewrite P1, !P2; reflexivity|reflexivity|reflexivity]].
+      clear FIN. destruct (kget_split _ _ _ EL) as [l1 [l2 [E1 E2]]].
+      assert (HC' : CInv rc_saio rc_raio (l1 ++ (k, cx) :: l2)) by (rewrite <- E1; exact HC).
+      inversion H; subst; clear H. split.
+      + split; rsproj.
+        * rewrite E1, !E2. eapply cinv_set; [exact HC'|cbn; auto|cbn; auto].
+        * rewrite P1, !P2. eapply pinv_set; [exact HP'|split; cbn; auto; discriminate].
+      + slaw0. destruct (OPS F) as [-> ->]. cbn [s_take s_del o_tx o_rel].
+        rewrite skey_resp by (intros; discriminate).
+        rewrite (cinv_att_key _ _ _ _ _ _ _ HC (kget_in' _ _ _ EL) ES).
+        slawfin. rewrite E1, !E2, P1, !P2, !wsum_attl_mid, !wsum_pheld_mid, !wsum_ptx_mid.
+        cbn [rc_saio rp_held rp_rmsg]. rewrite ES. cbn [opt_list]. wnorm. cbn [fst snd]. lia.
+    - (* PRecvDone *)
+      destruct (N.eqb_spec rv 0) as [->|Hrv]; cbn [negb] in H.
+      2:{ inversion H; subst; clear H. split; [exact HI|]. slaw0. cbn [op_add]. destruct (N.eqb_spec rv 0); [contradiction|]. slawfin. }
+      assert (RX : forall F, op_add F view_resp s (PRecvDone p 0 m)
+                   = F (@pair owner key OProto (match resp_recv (rs_ttl s) (pm_body m) with BtDeliver _ b => b | _ => body m end))) by reflexivity.
+      destruct (resp_recv (rs_ttl s) (pm_body m)) as [hdr bdy| |] eqn:ER.
+      2,3: inversion H; subst; clear H; (split; [exact HI|]); slaw0; rewrite RX; slawfin.
+      cbv zeta in H.
+      destruct (live_pipe p (rs_pipes s)) as [x|] eqn:LP.
+      2:{ inversion H; subst; clear H; (split; [exact HI|]); slaw0; rewrite RX; slawfin. }
+      unfold live_pipe in LP. destruct (kget p (rs_pipes s)) as [x0|] eqn:EP; [|discriminate].
+      destruct (rp_closed x0) eqn:ECL; [discriminate|]. injection LP as ->.
+      destruct (kget_split _ _ _ EP) as [q1 [q2 [P1 P2]]].
+      assert (HP' : PInv (q1 ++ (p, x) :: q2)) by (rewrite <- P1; exact HP).
+      pose proof (GP _ _ (kget_in' _ _ _ EP)) as [GX1 GX2].
+      destruct (rs_recvq s) as [|k rest].
+      { inversion H; subst; clear H. split.
+        - split; rsproj; [exact HC|]. rewrite P1, !P2. eapply pinv_set; [exact HP'|split; cbn; auto].
+        - slaw0; rewrite RX; slawfin. rewrite P1, !P2, !wsum_pheld_mid, !wsum_ptx_mid. cbn [rp_held rp_rmsg]. rewrite Hok. wnorm. cbn [pm_body]. lia. }
+      destruct (kget k (rs_ctxs s)) as [cx|] eqn:EL.
+      2:{ inversion H; subst; clear H; (split; [split; rsproj; [exact HC|exact HP]|]); slaw0; rewrite RX; slawfin. }
+      destruct (rc_raio cx) as [ra|] eqn:ERA.
+      2:{ inversion H; subst; clear H; (split; [split; rsproj; [exact HC|exact HP]|]); slaw0; rewrite RX; slawfin. }
+      destruct (kget_split _ _ _ EL) as [l1 [l2 [E1 E2]]].
+      assert (HC' : CInv rc_saio rc_raio (l1 ++ (k, cx) :: l2)) by (rewrite <- E1; exact HC).
+      inversion H; subst; clear H. split.
+      + split; rsproj; [|exact HP]. rewrite E1, !E2. eapply cinv_set; [exact HC'|cbn; auto|cbn; auto].
+      + slaw0; rewrite RX; slawfin; rewrite E1, !E2, !wsum_attl_mid; cbn [rc_saio]; lia.
+    - (* PSetOpt *)
+      destruct c; [inversion H; subst; split; [exact HI|slaw0; slawfin]|].
+      destruct op; try (inversion H; subst; split; [exact HI|slaw0; slawfin]).
+      all: match type of H with (if ?b then _ else _) = _ => destruct b end;
+           inversion H; subst; (split; [exact HI|slaw0; slawfin]).
+    - (* PCtxOpen *)
+      inversion H; subst; clear H. cbn [ckey] in *. rewrite (kset_absent _ _ _ Hok). split.
+      + split; rsproj; [|exact HP]. apply cinv_snoc; auto.
+      + slaw0. slawfin. rewrite attl_app. wnorm. cbn. wnorm. lia.
+    - (* PCtxClose *)
+      cbn [ckey] in H. destruct (kget (c + 1)%N (rs_ctxs s)) as [cx|] eqn:EL.
+      2:{ inversion H; subst. split; [exact HI|slaw0; slawfin]. }
+      destruct (rctx_close s (c + 1)%N cx) as [s1 o1] eqn:ECL.
+      destruct (rctx_close_spec _ _ _ _ _ HC EL ECL) as (l1 & l2 & E1 & E3 & E4 & E7).
+      assert (HC1 : CInv rc_saio rc_raio (rs_ctxs s1)).
+      { rewrite E3. rewrite E1 in HC. eapply cinv_set; [exact HC|cbn; auto|cbn; auto]. }
+      assert (ED : kdel (c + 1)%N (rs_ctxs s1) = l1 ++ l2).
+      { rewrite E3. unfold kdel. apply filter_mid_key. rewrite <- E3. apply HC1. }
+      assert (HP1 : PInv (rs_pipes s1) /\ pheld (rs_pipes s1) = pheld (rs_pipes s) /\ ptx (rs_pipes s1) = ptx (rs_pipes s)).
+      { destruct E4 as [-> | ->]; [auto|]. split; [apply pinv_unqueue; exact HP|]. split; [apply unqueue_pheld|apply unqueue_ptx]. }
+      destruct HP1 as (HP1 & EH & ET).
+      inversion H; subst; clear H. split.
+      + split; rsproj; [|exact HP1]. rewrite ED. rewrite E3 in HC1. eapply cinv_del; exact HC1.
+      + slaw0. specialize (E7 F (PCtxClose c) ltac:(intros; discriminate)). slawfin. rewrite EH, ET, ED.
+        rewrite E3, wsum_attl_mid in E7. cbn [rc_saio opt_list] in E7. rewrite attl_app. unfold body in E7. wnorm. lia.
+    - (* PSockClose *)
+      destruct (kget 0%N (rs_ctxs s)) as [cx|] eqn:EL.
+      2:{ inversion H; subst. split; [exact HI|slaw0; slawfin]. }
+      destruct (rctx_close_spec _ _ _ _ _ HC EL H) as (l1 & l2 & E1 & E3 & E4 & E7).
+      assert (HP1 : PInv (rs_pipes s') /\ pheld (rs_pipes s') = pheld (rs_pipes s) /\ ptx (rs_pipes s') = ptx (rs_pipes s)).
+      { destruct E4 as [-> | ->]; [auto|]. split; [apply pinv_unqueue; exact HP|]. split; [apply unqueue_pheld|apply unqueue_ptx]. }
+      destruct HP1 as (HP1 & EH & ET). split.
+      + split; [|exact HP1]. rewrite E3. rewrite E1 in HC. eapply cinv_set; [exact HC|cbn; auto|cbn; auto].
+      + slaw0. specialize (E7 F PSockClose ltac:(intros; discriminate)). slawfin. rewrite EH, ET. unfold body in E7. lia.
+    - (* PTick *)
+      inversion H; subst. split; [exact HI|slaw0; slawfin].
+  Qed.
+
+  Theorem resp_proto_law : forall fx, rf_sbusy fx = true -> proto_law view_resp (resp_step fx) SInv resp_ok.
+  Proof.
+    intros fx Hfx s o s' outs HI Hok H. destruct (resp_step_main fx s o s' outs Hfx HI Hok H) as [A B].
+    split; [exact A|]. split; [apply law_sum_eq, B|apply clones_held_none; reflexivity].
+  Qed.
+
+  (* a history the contract allows: a survey arrives and is received, the response goes out at once
+     (pipe idle); a second survey is received and its response is queued behind the busy pipe; the
+     transport completion sends the queued response; option change, a context, a cancelled receive;
+     a third response queued, flushed by the pipe close; socket close *)
+  Definition resp_hist : list pop :=
+    [PPipeStart 1%N PROTO_SURVEYOR;
+     PRecvDone 1%N 0%N (mkPmsg [] [128; 0; 0; 1; 7]%N);
+     PRecv None 10%N false;
+     PSend None 11%N false (mkPmsg [] [42%N]);
+     PRecvDone 1%N 0%N (mkPmsg [] [128; 0; 0; 2; 8]%N);
+     PRecv None 12%N false;
+     PSend None 13%N false (mkPmsg [] [43%N]);
+     PSendDone 1%N 0%N;
+     PSetOpt None (OMaxTtl 5);
+     PCtxOpen 0%N;
+     PRecv (Some 0%N) 14%N false;
+     PCancel 14%N E_CANCELED;
+     PRecvDone 1%N 0%N (mkPmsg [] [128; 0; 0; 3; 9]%N);
+     PRecv None 15%N false;
+     PSend None 16%N false (mkPmsg [] [44%N]);
+     PPipeClose 1%N;
+     PSockClose].
+  Example resp_ok_nonvacuous :
+    ops_ok (resp_step rfix_all) resp_ok resp_init resp_hist /\
+    snd (resp_step rfix_all (run (resp_step rfix_all) resp_init (firstn 3 resp_hist)) (nth 3 resp_hist PSockClose))
+      = [TranSend 1%N (mkPmsg [128; 0; 0; 1]%N [42%N]); Complete 11%N E_OK None] /\
+    snd (resp_step rfix_all (run (resp_step rfix_all) resp_init (firstn 6 resp_hist)) (nth 6 resp_hist PSockClose)) = [] /\
+    snd (resp_step rfix_all (run (resp_step rfix_all) resp_init (firstn 7 resp_hist)) (nth 7 resp_hist PSockClose))
+      = [TranSend 1%N (mkPmsg [128; 0; 0; 2]%N [43%N]); Complete 13%N E_OK None] /\
+    snd (resp_step rfix_all (run (resp_step rfix_all) resp_init (firstn 15 resp_hist)) (nth 15 resp_hist PSockClose))
+      = [Complete 16%N E_OK None; Free (mkPmsg [128; 0; 0; 3]%N [44%N])].
+  Proof.
+    split; [|vm_compute; repeat split].
+    vm_compute.
+    repeat match goal with |- _ /\ _ => split end; try exact I; try reflexivity; try discriminate.
+    all: try (intros HH; intuition discriminate).
+    all: intros k c HH; repeat (destruct HH as [HH|HH]; [inversion HH; subst; discriminate|]); destruct HH.
+  Qed.
+End RespSec.
+
+Print Assumptions rep_proto_law.
+Print Assumptions resp_proto_law.
+
+(* ====================================================================== *)
+(* Part 2: after the close sequence REP and RESPONDENT own nothing (their fini functions
+   free nothing: v_fini = []; rep0_pipe_close / resp0_pipe_close free the parked request /
+   survey and complete the replies queued on the pipe) *)
+From NngV Require Import Ledger.LedgerThms.
+
+(* the operations of a close sequence *)
+Definition rclosing (o : pop) : bool :=
+  match o with
+  | PPipeClose _ | PCtxClose _ | PSockClose => true
+  | PSendDone _ rv => N.eqb rv E_CLOSED
+  | _ => false
+  end.
+
+Section RunGen.
+  Context {St : Type} (step : St -> pop -> St * list pout).
+  Lemma run_app_rr a : forall b s, run step s (a ++ b) = run step (run step s a) b.
+  Proof. induction a as [|o a IH]; intros b s; cbn [app run]; [reflexivity|apply IH]. Qed.
+  Lemma ops_ok_rclosing (ok : St -> pop -> Prop) :
+    (forall s o, rclosing o = true -> ok s o) -> forall ops s, forallb rclosing ops = true -> ops_ok step ok s ops.
+  Proof.
+    intros Hok. induction ops as [|o ops IH]; intros s H; cbn [ops_ok forallb] in *; [exact I|].
+    apply andb_true_iff in H. destruct H as [H1 H2]. split; [apply Hok, H1|apply IH, H2].
+  Qed.
+End RunGen.
+Lemma forallb_map_true {A} (f : A -> pop) (l : list A) : (forall x, rclosing (f x) = true) -> forallb rclosing (map f l) = true.
+Proof. intros H. induction l; cbn; [reflexivity|]. now rewrite H, IHl. Qed.
+
+Section RepClose.
+  Import ReqRepBacktrace ReqModel RepModel ReqRepProofs.
+
+  Ltac rproj := cbn [rp_ctxs rp_pipes rp_busy rp_pclosed rp_holding rp_recvq rp_sendq rp_sending rp_readable
+                     rp_writable rp_ttl rp_set_ctxs rp_set_pipes rp_set_holding rp_set_recvq rp_set_sendq
+                     rp_set_sending rp_set_readable rp_set_writable rp_set_ttl rp_put] in *.
+  Ltac ifrepg := repeat match goal with
+    | |- context [if ?b then ?x else ?y] => match type of x with rep => destruct b end
+    end.
+
+  (* the contexts that still have a queued reply *)
+  Definition has_saio (kc : N * pctx) : bool := match rc_saio (snd kc) with Some _ => true | None => false end.
+  Definition sal (l : list (N * pctx)) : list (N * pctx) := filter has_saio l.
+  Lemma attl_sal_nil l : sal l = [] -> attl rc_saio l = [].
+  Proof.
+    induction l as [|[k c] l IH]; [reflexivity|]. unfold sal, attl. cbn [filter flat_map snd]. unfold has_saio at 1. cbn [snd].
+    destruct (rc_saio c); [discriminate|]. intros H. cbn [opt_list app]. apply IH, H.
+  Qed.
+  Lemma in_assoc_set_weak {A} k (v : A) l x : In x (assoc_set k v l) -> x = (k, v) \/ In x l.
+  Proof.
+    induction l as [|[k0 v0] l IH]; cbn [assoc_set In]; [intros [H|[]]; auto|]. destruct (N.eqb k0 k); cbn [In].
+    - intros [H|H]; auto.
+    - intros [H|H]; [auto|]. destruct (IH H); auto.
+  Qed.
+  Lemma sal_set k c0 l kc : rc_saio c0 = None -> In kc (sal (assoc_set k c0 l)) -> In kc (sal l).
+  Proof.
+    intros E H. unfold sal in *. apply filter_In in H. destruct H as [H P]. apply filter_In.
+    apply in_assoc_set_weak in H. destruct H as [->|H]; [|auto]. unfold has_saio in P. cbn in P. rewrite E in P. discriminate.
+  Qed.
+
+  Lemma close_sendq_frame ks : forall s1 s2 outs, close_sendq s1 ks = (s2, outs) ->
+    rp_holding s2 = rp_holding s1 /\ rp_sending s2 = rp_sending s1 /\
+    (forall kc, In kc (sal (rp_ctxs s2)) -> In kc (sal (rp_ctxs s1))).
+  Proof.
+    induction ks as [|k r IH]; intros s1 s2 outs H; cbn [close_sendq] in H.
+    - inversion H; subst. auto.
+    - unfold rp_get in H. destruct (lookup k (rp_ctxs s1)) as [c|]; [|eauto].
+      destruct (rc_saio c) as [[a m]|]; [|eauto].
+      destruct (close_sendq (rp_put s1 k (mkPctx (rc_pipe c) (rc_bt c) None (rc_raio c))) r) as [s3 o3] eqn:EC.
+      inversion H; subst; clear H. destruct (IH _ _ _ EC) as (A & B & C). rproj.
+      split; [exact A|]. split; [exact B|]. intros kc Hk. apply C in Hk. eapply sal_set; [|exact Hk]. reflexivity.
+  Qed.
+
+  Lemma rep_ok_closing s o : rclosing o = true -> rep_ok s o.
+  Proof. destruct o; cbn; intros; try exact I; discriminate. Qed.
+
+  (* one step of a close sequence: the invariant stays, nothing is added, the target is emptied *)
+  Lemma rep_close_step pf s o : pf_saio pf = true -> RInv s -> rclosing o = true ->
+    let s' := fst (rep_step pf s o) in
+    RInv s' /\
+    (forall x, In x (rp_holding s') -> In x (rp_holding s) /\ forall p, o = PPipeClose p -> fst x <> p) /\
+    (forall x, In x (rp_sending s') -> In x (rp_sending s) /\ forall p, o = PSendDone p E_CLOSED -> fst x <> p) /\
+    (forall kc, In kc (sal (rp_ctxs s')) -> In kc (sal (rp_ctxs s)) /\
+                (forall c, o = PCtxClose c -> fst kc <> (c + 1)%N) /\ (o = PSockClose -> fst kc <> 0%N)).
+  Proof.
+    intros Hpf HI Hcl s'. split.
+    { subst s'. destruct (rep_step pf s o) as [s1 o1] eqn:E.
+      exact (proj1 (rep_step_main pf s o s1 o1 Hpf HI (rep_ok_closing s o Hcl) E)). }
+    destruct HI as [HC HB]. pose proof HC as (K & N & R).
+    destruct o as [c a nb m|c a nb|a rv|p peer|p|p rv|p rv m|c op|c|c| |now]; try discriminate Hcl; subst s'.
+    - (* PPipeClose *)
+      cbn [rep_step]. cbv zeta. ifrepg.
+      all: match goal with |- context [close_sendq ?x ?ks] => destruct (close_sendq x ks) as [s2 o2] eqn:EC end.
+      all: ifrepg; cbn [fst]; rproj.
+      all: destruct (close_sendq_frame _ _ _ _ EC) as (A & B & C); rproj; rewrite A, B.
+      all: split; [intros x Hx; unfold assoc_del in Hx; apply filter_In in Hx; destruct Hx as [Hx Hp]; split; [exact Hx|];
+                   intros p0 E; inversion E; subst p0; destruct (N.eqb_spec (fst x) p); [discriminate|assumption]|].
+      all: split; [intros x Hx; split; [exact Hx|intros; discriminate]|].
+      all: intros kc Hk; split; [apply C, Hk|split; intros; discriminate].
+    - (* PSendDone p E_CLOSED *)
+      cbn [rclosing] in Hcl. apply N.eqb_eq in Hcl. subst rv. cbn [rep_step]. cbv zeta.
+      change (negb (E_CLOSED =? 0)%N) with true. cbv iota. cbn [fst]. rproj.
+      split; [intros x Hx; split; [exact Hx|intros; discriminate]|].
+      split; [|intros kc Hk; split; [exact Hk|split; intros; discriminate]].
+      intros x Hx. unfold assoc_del in Hx. apply filter_In in Hx. destruct Hx as [Hx Hp]. split; [exact Hx|].
+      intros p0 E. inversion E; subst p0. destruct (N.eqb_spec (fst x) p); [discriminate|assumption].
+    - (* PCtxClose *)
+      cbn [rep_step]. unfold rp_get. destruct (lookup (c + 1)%N (rp_ctxs s)) as [cx|] eqn:EL.
+      2:{ cbn [fst]. split; [intros x Hx; split; [exact Hx|intros; discriminate]|].
+          split; [intros x Hx; split; [exact Hx|intros; discriminate]|].
+          intros kc Hk. split; [exact Hk|]. split; [|intros; discriminate].
+          intros c0 E. inversion E; subst c0. intros E2. apply (lookup_none_notin _ _ EL). rewrite <- E2.
+          apply in_map. unfold sal in Hk. apply filter_In in Hk. apply Hk. }
+      destruct (rep_ctx_close s (c + 1)%N cx) as [s1 o1] eqn:ECL.
+      destruct (rep_ctx_close_spec _ _ _ _ _ HC EL ECL) as (l1 & l2 & E1 & E3 & E4 & E5 & E6 & _).
+      cbn [fst]. rproj. rewrite E4, E5.
+      split; [intros x Hx; split; [exact Hx|intros; discriminate]|].
+      split; [intros x Hx; split; [exact Hx|intros; discriminate]|].
+      intros kc Hk. unfold sal in Hk. apply filter_In in Hk. destruct Hk as [Hk P].
+      unfold assoc_del in Hk. apply filter_In in Hk. destruct Hk as [Hk Hne]. rewrite E3 in Hk.
+      assert (Hkey : fst kc <> (c + 1)%N) by (destruct (N.eqb_spec (fst kc) (c + 1)); [discriminate|assumption]).
+      split; [|split; [intros c0 E; inversion E; subst c0; exact Hkey|intros; discriminate]].
+      unfold sal. apply filter_In. split; [|exact P]. rewrite E1. apply in_app_or in Hk. apply in_or_app.
+      destruct Hk as [Hk|[Hk|Hk]]; [left; exact Hk| |right; right; exact Hk]. subst kc. cbn in Hkey. congruence.
+    - (* PSockClose *)
+      cbn [rep_step]. unfold rp_get. destruct (lookup 0%N (rp_ctxs s)) as [cx|] eqn:EL.
+      2:{ cbn [fst]. split; [intros x Hx; split; [exact Hx|intros; discriminate]|].
+          split; [intros x Hx; split; [exact Hx|intros; discriminate]|].
+          intros kc Hk. split; [exact Hk|]. split; [intros; discriminate|].
+          intros _ E2. apply (lookup_none_notin _ _ EL). rewrite <- E2.
+          apply in_map. unfold sal in Hk. apply filter_In in Hk. apply Hk. }
+      destruct (rep_ctx_close s 0%N cx) as [s1 o1] eqn:ECL.
+      destruct (rep_ctx_close_spec _ _ _ _ _ HC EL ECL) as (l1 & l2 & E1 & E3 & E4 & E5 & E6 & _).
+      cbn [fst]. rewrite E4, E5.
+      split; [intros x Hx; split; [exact Hx|intros; discriminate]|].
+      split; [intros x Hx; split; [exact Hx|intros; discriminate]|].
+      intros kc Hk. unfold sal in Hk. apply filter_In in Hk. destruct Hk as [Hk P]. rewrite E3 in Hk.
+      rewrite E1 in K. rewrite map_app in K. cbn [map fst] in K. pose proof (NoDup_remove_2 _ _ _ K) as Hn.
+      assert (Hin : In kc l1 \/ In kc l2).
+      { apply in_app_or in Hk. destruct Hk as [Hk|[Hk|Hk]]; auto. subst kc. discriminate P. }
+      split; [|split; [intros; discriminate|]].
+      + unfold sal. apply filter_In. split; [|exact P]. rewrite E1. apply in_or_app. destruct Hin; [left|right; right]; assumption.
+      + intros _ E2. apply Hn. rewrite <- E2. apply in_or_app. destruct Hin as [H|H]; [left|right]; apply in_map; exact H.
+  Qed.
+
+  Lemma rep_close_run pf (Hpf : pf_saio pf = true) l : forallb rclosing l = true -> forall s, RInv s ->
+    RInv (run (rep_step pf) s l) /\
+    (forall x, In x (rp_holding (run (rep_step pf) s l)) -> In x (rp_holding s) /\ ~ In (PPipeClose (fst x)) l) /\
+    (forall x, In x (rp_sending (run (rep_step pf) s l)) -> In x (rp_sending s) /\ ~ In (PSendDone (fst x) E_CLOSED) l) /\
+    (forall kc, In kc (sal (rp_ctxs (run (rep_step pf) s l))) -> In kc (sal (rp_ctxs s)) /\
+                (forall c, In (PCtxClose c) l -> fst kc <> (c + 1)%N) /\ (In PSockClose l -> fst kc <> 0%N)).
+  Proof.
+    induction l as [|o l IH]; intros Hl s HI; cbn [run forallb] in *.
+    - split; [exact HI|]. split; [|split]; intros x Hx; (split; [exact Hx|]); try (intros []). split; [intros c []|intros []].
+    - apply andb_true_iff in Hl. destruct Hl as [Ho Hl].
+      destruct (rep_close_step pf s o Hpf HI Ho) as (I1 & H1 & S1 & C1).
+      destruct (IH Hl _ I1) as (I2 & H2 & S2 & C2).
+      split; [exact I2|]. split; [|split].
+      + intros x Hx. destruct (H2 x Hx) as [A B]. destruct (H1 x A) as [A1 B1]. split; [exact A1|].
+        intros [E|E]; [exact (B1 _ E eq_refl)|exact (B E)].
+      + intros x Hx. destruct (S2 x Hx) as [A B]. destruct (S1 x A) as [A1 B1]. split; [exact A1|].
+        intros [E|E]; [exact (B1 _ E eq_refl)|exact (B E)].
+      + intros kc Hk. destruct (C2 kc Hk) as (A & B & D). destruct (C1 kc A) as (A1 & B1 & D1). split; [exact A1|]. split.
+        * intros c [E|E]; [exact (B1 _ E)|exact (B _ E)].
+        * intros [E|E]; [exact (D1 E)|exact (D E)].
+  Qed.
+
+  (* the socket core's close sequence as rep0 sees it: every pipe the state knows (the id map, the pipes
+     parking a request, with a send in flight, with queued replies) gets its pipe_close; every transport
+     send still in flight fails (NNG_ECLOSED); every context other than the socket's own (context c has
+     key c + 1) is closed; then the socket's own close, which closes the socket's context (key 0) *)
+  Definition rep_close_script (s : rep) : list pop :=
+    map PPipeClose (rp_pipes s ++ map fst (rp_holding s) ++ map fst (rp_sending s) ++ map fst (rp_sendq s))
+    ++ map (fun p => PSendDone p E_CLOSED) (map fst (rp_sending s))
+    ++ map (fun kc => PCtxClose (fst kc - 1)) (filter (fun kc => negb (N.eqb (fst kc) 0)) (rp_ctxs s))
+    ++ [PSockClose].
+
+  Lemma rep_script_closing s : forallb rclosing (rep_close_script s) = true.
+  Proof.
+    unfold rep_close_script. rewrite !forallb_app.
+    rewrite !forallb_map_true by (intros; reflexivity). reflexivity.
+  Qed.
+
+  Theorem rep_close_drains : forall pf s, pf_saio pf = true -> RInv s ->
+    ops_ok (rep_step pf) rep_ok s (rep_close_script s) /\ drained view_rep (run (rep_step pf) s (rep_close_script s)).
+  Proof.
+    intros pf s Hpf HI. split.
+    - apply ops_ok_rclosing; [apply rep_ok_closing|apply rep_script_closing].
+    - destruct (rep_close_run pf Hpf _ (rep_script_closing s) s HI) as (_ & H & S & C).
+      set (s' := run (rep_step pf) s (rep_close_script s)) in *.
+      assert (EH : rp_holding s' = []).
+      { destruct (rp_holding s') as [|x r]; [reflexivity|]. exfalso. destruct (H x (or_introl eq_refl)) as [A B]. apply B.
+        unfold rep_close_script. apply in_or_app. left. apply in_map. apply in_or_app. right. apply in_or_app. left.
+        apply in_map. exact A. }
+      assert (ES : rp_sending s' = []).
+      { destruct (rp_sending s') as [|x r]; [reflexivity|]. exfalso. destruct (S x (or_introl eq_refl)) as [A B]. apply B.
+        unfold rep_close_script. apply in_or_app. right. apply in_or_app. left.
+        apply (in_map (fun p => PSendDone p E_CLOSED)). apply in_map. exact A. }
+      assert (EC : sal (rp_ctxs s') = []).
+      { destruct (sal (rp_ctxs s')) as [|kc r]; [reflexivity|]. exfalso. destruct (C kc (or_introl eq_refl)) as (A & B & D).
+        destruct (N.eqb_spec (fst kc) 0) as [E0|E0].
+        - apply D; [|exact E0]. unfold rep_close_script. apply in_or_app. right. apply in_or_app. right. apply in_or_app. right. left. reflexivity.
+        - apply (B (fst kc - 1)%N); [|lia]. unfold rep_close_script. apply in_or_app. right. apply in_or_app. right. apply in_or_app. left.
+          apply (in_map (fun kc => PCtxClose (fst kc - 1))). apply filter_In. unfold sal in A. apply filter_In in A.
+          split; [apply A|]. destruct (N.eqb_spec (fst kc) 0); [contradiction|reflexivity]. }
+      unfold drained. cbn [view_rep VRep.view v_tx v_att v_held v_fini]. rewrite EH, ES.
+      split; [reflexivity|]. split; [apply attl_sal_nil, EC|apply Permutation_refl].
+  Qed.
+
+  (* the pinned form of rep0_ctx_send (no NNG_ESTATE while ctx->saio is pending): the second queued
+     reply overwrites ctx->saio; the first reply's reference is gone from the state and the ledger
+     check fails at that step *)
+  Definition pf_bad : pfix := mkPfix true true false true.
+  Definition rep_bad_hist : list pop :=
+    [PPipeStart 1%N PROTO_REQ;
+     PRecvDone 1%N 0%N (mkPmsg [] [128; 0; 0; 1; 7]%N);
+     PRecv None 10%N false;
+     PSend None 11%N false (mkPmsg [] [42%N]);
+     PRecvDone 1%N 0%N (mkPmsg [] [128; 0; 0; 2; 8]%N);
+     PRecv None 12%N false;
+     PSend None 13%N false (mkPmsg [] [43%N]);
+     PRecvDone 1%N 0%N (mkPmsg [] [128; 0; 0; 3; 9]%N);
+     PRecv None 14%N false;
+     PSend None 15%N false (mkPmsg [] [44%N])].
+  Theorem rep_law_refuted_pinned_saio : exists ops, replay_run view_rep (rep_step pf_bad) ls_init rep_init ops = None.
+  Proof. exists rep_bad_hist. vm_compute. reflexivity. Qed.
+  (* ... while the history up to the last send replays, and with the repair all of it does *)
+  Lemma rep_bad_hist_prefix_ok :
+    (exists r, replay_run view_rep (rep_step pf_bad) ls_init rep_init (removelast rep_bad_hist) = Some r) /\
+    (exists r, replay_run view_rep (rep_step pf_all) ls_init rep_init rep_bad_hist = Some r).
+  Proof. split; vm_compute; eexists; reflexivity. Qed.
+End RepClose.
+
+Section RespClose.
+  Import SurveyBacktrace SurveyModel RespondModel.
+
+  Ltac rsproj := cbn [rs_ctxs rs_pipes rs_recvpipes rs_recvq rs_ttl rs_readable rs_writable
+                      rset_ctxs rset_pipes rset_w rset_r rset_recvpipes rset_recvq] in *.
+
+  Definition has_saio' (kc : N * rctx) : bool := match rc_saio (snd kc) with Some _ => true | None => false end.
+  Definition sal' (l : list (N * rctx)) : list (N * rctx) := filter has_saio' l.
+  Lemma attl_sal_nil' l : sal' l = [] -> attl rc_saio l = [].
+  Proof.
+    induction l as [|[k c] l IH]; [reflexivity|]. unfold sal', attl. cbn [filter flat_map snd]. unfold has_saio' at 1. cbn [snd].
+    destruct (rc_saio c); [discriminate|]. intros H. cbn [opt_list app]. apply IH, H.
+  Qed.
+  Lemma in_kset_weak' {A} k (v : A) l x : In x (kset k v l) -> x = (k, v) \/ In x l.
+  Proof.
+    induction l as [|[k0 v0] l IH]; cbn [kset In]; [intros [H|[]]; auto|]. destruct (N.eqb k0 k); cbn [In].
+    - intros [H|H]; auto.
+    - intros [H|H]; [auto|]. destruct (IH H); auto.
+  Qed.
+  Lemma sal_set' k c0 l kc : rc_saio c0 = None -> In kc (sal' (kset k c0 l)) -> In kc (sal' l).
+  Proof.
+    intros E H. unfold sal' in *. apply filter_In in H. destruct H as [H P]. apply filter_In.
+    apply in_kset_weak' in H. destruct H as [->|H]; [|auto]. unfold has_saio' in P. cbn in P. rewrite E in P. discriminate.
+  Qed.
+  Lemma flush_sendq_frame ks : forall cs cs' outs, flush_sendq ks cs = (cs', outs) ->
+    forall kc, In kc (sal' cs') -> In kc (sal' cs).
+  Proof.
+    induction ks as [|k r IH]; intros cs cs' outs H; cbn [flush_sendq] in H.
+    - inversion H; subst. auto.
+    - destruct (kget k cs) as [c|]; [|eauto].
+      destruct (rc_saio c) as [[a m]|]; [|eauto].
+      destruct (flush_sendq r (kset k (mkRctx (rc_pipe c) (rc_bt c) None (rc_raio c)) cs)) as [cs3 o3] eqn:EC.
+      inversion H; subst; clear H. intros kc Hk. apply (IH _ _ _ EC) in Hk. eapply sal_set'; [|exact Hk]. reflexivity.
+  Qed.
+
+  Lemma resp_ok_closing s o : rclosing o = true -> resp_ok s o.
+  Proof. destruct o; cbn; intros; try exact I; discriminate. Qed.
+
+  (* what a closing step does to the pipe records: nothing is added; the closed pipe parks nothing,
+     the pipe whose send failed has nothing in flight *)
+  Definition pstep (o : pop) (l l' : list (pid * rpipe)) : Prop :=
+    forall p x, In (p, x) l' -> exists x0, In (p, x0) l /\
+      (rp_rmsg x = rp_rmsg x0 \/ rp_rmsg x = []) /\ (rp_held x = rp_held x0 \/ rp_held x = []) /\
+      (o = PPipeClose p -> rp_rmsg x = []) /\ (o = PSendDone p E_CLOSED -> rp_held x = []).
+  Lemma pstep_other o l : (forall p, o <> PPipeClose p) -> (forall p, o <> PSendDone p E_CLOSED) -> pstep o l l.
+  Proof. intros H1 H2 p x Hi. exists x. split; [exact Hi|]. split; [auto|]. split; [auto|]. split; intros E; [destruct (H1 _ E)|destruct (H2 _ E)]. Qed.
+  Lemma pstep_unqueue o k l : (forall p, o <> PPipeClose p) -> (forall p, o <> PSendDone p E_CLOSED) -> pstep o l (unqueue_ctx k l).
+  Proof.
+    intros H1 H2 p x Hi. unfold unqueue_ctx in Hi. apply in_map_iff in Hi. destruct Hi as [[q y] [E Hi]]. inversion E; subst.
+    exists y. split; [exact Hi|]. cbn. split; [auto|]. split; [auto|]. split; intros E0; [destruct (H1 _ E0)|destruct (H2 _ E0)].
+  Qed.
+  Lemma pstep_none o p l : kget p l = None ->
+    (forall q, o = PPipeClose q -> q = p) -> (forall q, o = PSendDone q E_CLOSED -> q = p) -> pstep o l l.
+  Proof.
+    intros Hn H1 H2 q x Hi. exists x. split; [exact Hi|]. split; [auto|]. split; [auto|].
+    assert (q <> p) by (intros ->; apply (kget_none_notin' _ _ Hn); apply in_map_iff; exists (p, x); auto).
+    split; intros E; exfalso; [apply H, (H1 _ E)|apply H, (H2 _ E)].
+  Qed.
+  Lemma pstep_set o p q1 x x' q2 : NoDup (map fst (q1 ++ (p, x) :: q2)) ->
+    (forall q, o = PPipeClose q -> q = p) -> (forall q, o = PSendDone q E_CLOSED -> q = p) ->
+    (rp_rmsg x' = rp_rmsg x \/ rp_rmsg x' = []) -> (rp_held x' = rp_held x \/ rp_held x' = []) ->
+    (o = PPipeClose p -> rp_rmsg x' = []) -> (o = PSendDone p E_CLOSED -> rp_held x' = []) ->
+    pstep o (q1 ++ (p, x) :: q2) (q1 ++ (p, x') :: q2).
+  Proof.
+    intros ND H1 H2 A B C D q y Hi. rewrite map_app in ND. cbn [map fst] in ND. pose proof (NoDup_remove_2 _ _ _ ND) as Hn.
+    rewrite in_app_iff in Hn.
+    apply in_app_or in Hi. destruct Hi as [Hi|[Hi|Hi]].
+    - exists y. split; [apply in_or_app; left; exact Hi|]. split; [auto|]. split; [auto|].
+      assert (q <> p) by (intros ->; apply Hn; left; apply in_map_iff; exists (p, y); auto).
+      split; intros E; exfalso; [apply H, (H1 _ E)|apply H, (H2 _ E)].
+    - inversion Hi; subst. exists x. split; [apply in_or_app; right; left; reflexivity|]. auto.
+    - exists y. split; [apply in_or_app; right; right; exact Hi|]. split; [auto|]. split; [auto|].
+      assert (q <> p) by (intros ->; apply Hn; right; apply in_map_iff; exists (p, y); auto).
+      split; intros E; exfalso; [apply H, (H1 _ E)|apply H, (H2 _ E)].
+  Qed.
+
+  Lemma resp_close_step fx s o : rf_sbusy fx = true -> SInv s -> rclosing o = true ->
+    let s' := fst (resp_step fx s o) in
+    SInv s' /\ pstep o (rs_pipes s) (rs_pipes s') /\
+    (forall kc, In kc (sal' (rs_ctxs s')) -> In kc (sal' (rs_ctxs s)) /\
+                (forall c, o = PCtxClose c -> fst kc <> (c + 1)%N) /\ (o = PSockClose -> fst kc <> 0%N)).
+  Proof.
+    intros Hfx HI Hcl s'. split.
+    { subst s'. destruct (resp_step fx s o) as [s1 o1] eqn:E.
+      exact (proj1 (resp_step_main fx s o s1 o1 Hfx HI (resp_ok_closing s o Hcl) E)). }
+    destruct HI as [HC [KP GP]]. pose proof HC as (K & N & R).
+    destruct o as [c a nb m|c a nb|a rv|p peer|p|p rv|p rv m|c op|c|c| |now]; try discriminate Hcl; subst s'.
+    - (* PPipeClose *)
+      cbn [resp_step]. destruct (kget p (rs_pipes s)) as [x|] eqn:EP.
+      2:{ cbn [fst]. split; [apply (pstep_none _ p); [exact EP|intros q E; inversion E; auto|intros; discriminate]|].
+          intros kc Hk. split; [exact Hk|split; intros; discriminate]. }
+      destruct (flush_sendq (rp_sendq x) (rs_ctxs s)) as [cs' o1] eqn:EFL. cbn [fst rs_pipes rs_ctxs].
+      destruct (kget_split _ _ _ EP) as [q1 [q2 [P1 P2]]]. rewrite P1, P2. split.
+      + apply pstep_set; [rewrite <- P1; exact KP|intros q E; inversion E; auto|intros; discriminate|cbn; auto..].
+        intros; discriminate.
+      + intros kc Hk. split; [exact (flush_sendq_frame _ _ _ _ EFL kc Hk)|split; intros; discriminate].
+    - (* PSendDone p E_CLOSED *)
+      cbn [rclosing] in Hcl. apply N.eqb_eq in Hcl. subst rv. cbn [resp_step].
+      destruct (kget p (rs_pipes s)) as [x|] eqn:EP.
+      2:{ cbn [fst]. split; [apply (pstep_none _ p); [exact EP|intros; discriminate|intros q E; inversion E; auto]|].
+          intros kc Hk. split; [exact Hk|split; intros; discriminate]. }
+      change (negb (E_CLOSED =? 0)%N) with true. cbv iota. cbn [fst]. rsproj.
+      destruct (kget_split _ _ _ EP) as [q1 [q2 [P1 P2]]]. rewrite P1, P2. split.
+      + apply pstep_set; [rewrite <- P1; exact KP|intros; discriminate|intros q E; inversion E; auto|cbn; auto..].
+        intros; discriminate.
+      + intros kc Hk. split; [exact Hk|split; intros; discriminate].
+    - (* PCtxClose *)
+      cbn [resp_step ckey]. destruct (kget (c + 1)%N (rs_ctxs s)) as [cx|] eqn:EL.
+      2:{ cbn [fst]. split; [apply pstep_other; intros; discriminate|].
+          intros kc Hk. split; [exact Hk|]. split; [|intros; discriminate].
+          intros c0 E. inversion E; subst c0. intros E2. apply (kget_none_notin' _ _ EL). rewrite <- E2.
+          apply in_map. unfold sal' in Hk. apply filter_In in Hk. apply Hk. }
+      destruct (rctx_close s (c + 1)%N cx) as [s1 o1] eqn:ECL.
+      destruct (rctx_close_spec _ _ _ _ _ HC EL ECL) as (l1 & l2 & E1 & E3 & E4 & _).
+      cbn [fst]. rsproj. split.
+      + destruct E4 as [-> | ->]; [apply pstep_other|apply pstep_unqueue]; intros; discriminate.
+      + intros kc Hk. unfold sal' in Hk. apply filter_In in Hk. destruct Hk as [Hk P].
+        unfold kdel in Hk. apply filter_In in Hk. destruct Hk as [Hk Hne]. rewrite E3 in Hk.
+        assert (Hkey : fst kc <> (c + 1)%N) by (destruct (N.eqb_spec (fst kc) (c + 1)); [discriminate|assumption]).
+        split; [|split; [intros c0 E; inversion E; subst c0; exact Hkey|intros; discriminate]].
+        unfold sal'. apply filter_In. split; [|exact P]. rewrite E1. apply in_app_or in Hk. apply in_or_app.
+        destruct Hk as [Hk|[Hk|Hk]]; [left; exact Hk| |right; right; exact Hk]. subst kc. cbn in Hkey. congruence.
+    - (* PSockClose *)
+      cbn [resp_step]. destruct (kget 0%N (rs_ctxs s)) as [cx|] eqn:EL.
+      2:{ cbn [fst]. split; [apply pstep_other; intros; discriminate|].
+          intros kc Hk. split; [exact Hk|]. split; [intros; discriminate|].
+          intros _ E2. apply (kget_none_notin' _ _ EL). rewrite <- E2.
+          apply in_map. unfold sal' in Hk. apply filter_In in Hk. apply Hk. }
+      destruct (rctx_close s 0%N cx) as [s1 o1] eqn:ECL.
+      destruct (rctx_close_spec _ _ _ _ _ HC EL ECL) as (l1 & l2 & E1 & E3 & E4 & _).
+      cbn [fst]. split.
+      + destruct E4 as [-> | ->]; [apply pstep_other|apply pstep_unqueue]; intros; discriminate.
+      + intros kc Hk. unfold sal' in Hk. apply filter_In in Hk. destruct Hk as [Hk P]. rewrite E3 in Hk.
+        rewrite E1 in K. rewrite map_app in K. cbn [map fst] in K. pose proof (NoDup_remove_2 _ _ _ K) as Hn.
+        assert (Hin : In kc l1 \/ In kc l2).
+        { apply in_app_or in Hk. destruct Hk as [Hk|[Hk|Hk]]; auto. subst kc. discriminate P. }
+        split; [|split; [intros; discriminate|]].
+        * unfold sal'. apply filter_In. split; [|exact P]. rewrite E1. apply in_or_app. destruct Hin; [left|right; right]; assumption.
+        * intros _ E2. apply Hn. rewrite <- E2. apply in_or_app. destruct Hin as [H|H]; [left|right]; apply in_map; exact H.
+  Qed.
+
+  Lemma resp_close_run fx (Hfx : rf_sbusy fx = true) l : forallb rclosing l = true -> forall s, SInv s ->
+    SInv (run (resp_step fx) s l) /\
+    (forall p x, In (p, x) (rs_pipes (run (resp_step fx) s l)) -> exists x0, In (p, x0) (rs_pipes s) /\
+       (rp_rmsg x = rp_rmsg x0 \/ rp_rmsg x = []) /\ (rp_held x = rp_held x0 \/ rp_held x = []) /\
+       (In (PPipeClose p) l -> rp_rmsg x = []) /\ (In (PSendDone p E_CLOSED) l -> rp_held x = [])) /\
+    (forall kc, In kc (sal' (rs_ctxs (run (resp_step fx) s l))) -> In kc (sal' (rs_ctxs s)) /\
+                (forall c, In (PCtxClose c) l -> fst kc <> (c + 1)%N) /\ (In PSockClose l -> fst kc <> 0%N)).
+  Proof.
+    induction l as [|o l IH]; intros Hl s HI; cbn [run forallb] in *.
+    - split; [exact HI|]. split.
+      + intros p x Hx. exists x. split; [exact Hx|]. split; [auto|]. split; [auto|]. split; intros [].
+      + intros kc Hk. split; [exact Hk|]. split; [intros c []|intros []].
+    - apply andb_true_iff in Hl. destruct Hl as [Ho Hl].
+      destruct (resp_close_step fx s o Hfx HI Ho) as (I1 & P1 & C1).
+      destruct (IH Hl _ I1) as (I2 & P2 & C2).
+      split; [exact I2|]. split.
+      + intros p x Hx. destruct (P2 p x Hx) as (x1 & A1 & B1 & D1 & F1 & G1).
+        destruct (P1 p x1 A1) as (x0 & A0 & B0 & D0 & F0 & G0).
+        exists x0. split; [exact A0|]. split; [|split; [|split]].
+        * destruct B1 as [B1|B1]; [rewrite B1; exact B0|auto].
+        * destruct D1 as [D1|D1]; [rewrite D1; exact D0|auto].
+        * intros [E|E]; [|exact (F1 E)]. destruct B1 as [B1|B1]; [rewrite B1; apply F0; exact E|exact B1].
+        * intros [E|E]; [|exact (G1 E)]. destruct D1 as [D1|D1]; [rewrite D1; apply G0; exact E|exact D1].
+      + intros kc Hk. destruct (C2 kc Hk) as (A & B & D). destruct (C1 kc A) as (A1 & B1 & D1). split; [exact A1|]. split.
+        * intros c [E|E]; [exact (B1 _ E)|exact (B _ E)].
+        * intros [E|E]; [exact (D1 E)|exact (D E)].
+  Qed.
+
+  (* the socket core's close sequence as resp0 sees it: every pipe the state knows gets its pipe_close
+     and, if it has a message in flight, the failing completion of that send (NNG_ECLOSED); every
+     context other than the socket's own (context c has key c + 1) is closed; then the socket's own
+     close, which closes the socket's context (key 0) *)
+  Definition resp_close_script (s : resp) : list pop :=
+    flat_map (fun px => PPipeClose (fst px) :: if isnil (rp_held (snd px)) then [] else [PSendDone (fst px) E_CLOSED]) (rs_pipes s)
+    ++ map (fun kc => PCtxClose (fst kc - 1)) (filter (fun kc => negb (N.eqb (fst kc) 0)) (rs_ctxs s))
+    ++ [PSockClose].
+
+  Lemma resp_script_closing s : forallb rclosing (resp_close_script s) = true.
+  Proof.
+    unfold resp_close_script. rewrite !forallb_app.
+    rewrite forallb_map_true by (intros; reflexivity). cbn [forallb rclosing andb]. rewrite andb_true_r.
+    induction (rs_pipes s) as [|[p x] l IH]; [reflexivity|]. cbn [flat_map fst snd].
+    destruct (isnil (rp_held x)); cbn [app forallb rclosing andb]; [exact IH|]. change (E_CLOSED =? E_CLOSED)%N with true. exact IH.
+  Qed.
+  Lemma pheld_all_nil l : (forall p x, In (p, x) l -> rp_rmsg x = []) -> pheld l = [].
+  Proof.
+    induction l as [|[p x] l IH]; intros H; [reflexivity|]. unfold pheld. cbn [flat_map snd]. fold (pheld l).
+    rewrite (H p x (or_introl eq_refl)), IH; [reflexivity|]. intros q y Hi. apply (H q y). right. exact Hi.
+  Qed.
+  Lemma ptx_all_nil l : (forall p x, In (p, x) l -> rp_held x = []) -> ptx l = [].
+  Proof.
+    induction l as [|[p x] l IH]; intros H; [reflexivity|]. unfold ptx. cbn [flat_map snd]. fold (ptx l).
+    rewrite (H p x (or_introl eq_refl)), IH; [reflexivity|]. intros q y Hi. apply (H q y). right. exact Hi.
+  Qed.
+
+  Theorem resp_close_drains : forall fx s, rf_sbusy fx = true -> SInv s ->
+    ops_ok (resp_step fx) resp_ok s (resp_close_script s) /\ drained view_resp (run (resp_step fx) s (resp_close_script s)).
+  Proof.
+    intros fx s Hfx HI. split.
+    - apply ops_ok_rclosing; [apply resp_ok_closing|apply resp_script_closing].
+    - destruct (resp_close_run fx Hfx _ (resp_script_closing s) s HI) as (_ & P & C).
+      set (s' := run (resp_step fx) s (resp_close_script s)) in *.
+      assert (INP : forall p x0, In (p, x0) (rs_pipes s) ->
+                In (PPipeClose p) (resp_close_script s) /\ (rp_held x0 <> [] -> In (PSendDone p E_CLOSED) (resp_close_script s))).
+      { intros p x0 Hi. unfold resp_close_script. split.
+        - apply in_or_app. left. apply in_flat_map. exists (p, x0). split; [exact Hi|]. left. reflexivity.
+        - intros Hne. apply in_or_app. left. apply in_flat_map. exists (p, x0). split; [exact Hi|]. cbn [fst snd].
+          destruct (rp_held x0); [congruence|]. right. left. reflexivity. }
+      assert (EH : pheld (rs_pipes s') = []).
+      { apply pheld_all_nil. intros p x Hi. destruct (P p x Hi) as (x0 & A & _ & _ & F & _). apply F, (INP p x0 A). }
+      assert (ES : ptx (rs_pipes s') = []).
+      { apply ptx_all_nil. intros p x Hi. destruct (P p x Hi) as (x0 & A & _ & D & _ & G).
+        destruct (rp_held x0) as [|m0 r0] eqn:E0; [destruct D; assumption|].
+        apply G, (INP p x0 A). rewrite E0. discriminate. }
+      assert (EC : sal' (rs_ctxs s') = []).
+      { destruct (sal' (rs_ctxs s')) as [|kc r]; [reflexivity|]. exfalso. destruct (C kc (or_introl eq_refl)) as (A & B & D).
+        destruct (N.eqb_spec (fst kc) 0) as [E0|E0].
+        - apply D; [|exact E0]. unfold resp_close_script. apply in_or_app. right. apply in_or_app. right. left. reflexivity.
+        - apply (B (fst kc - 1)%N); [|lia]. unfold resp_close_script. apply in_or_app. right. apply in_or_app. left.
+          apply (in_map (fun kc => PCtxClose (fst kc - 1))). apply filter_In. unfold sal' in A. apply filter_In in A.
+          split; [apply A|]. destruct (N.eqb_spec (fst kc) 0); [contradiction|reflexivity]. }
+      unfold drained. cbn [view_resp VResp.view v_tx v_att v_held v_fini].
+      change (flat_map (fun px => rp_rmsg (snd px)) (rs_pipes s')) with (pheld (rs_pipes s')).
+      change (flat_map (fun px => map (fun m => (fst px, m)) (rp_held (snd px))) (rs_pipes s')) with (ptx (rs_pipes s')).
+      rewrite EH, ES. split; [reflexivity|]. split; [apply attl_sal_nil', EC|apply Permutation_refl].
+  Qed.
+
+  (* the pinned form of resp0_ctx_send (no NNG_ESTATE while ctx->saio is queued): the second queued
+     response overwrites ctx->saio (and enters the context twice in the pipe's list); the first
+     response's reference is gone from the state and the ledger check fails at that step *)
+  Definition rf_bad : resp_fix := mkRfix true true true false true true.
+  Definition resp_bad_hist : list pop :=
+    [PPipeStart 1%N PROTO_SURVEYOR;
+     PRecvDone 1%N 0%N (mkPmsg [] [128; 0; 0; 1; 7]%N);
+     PRecv None 10%N false;
+     PSend None 11%N false (mkPmsg [] [42%N]);
+     PRecvDone 1%N 0%N (mkPmsg [] [128; 0; 0; 2; 8]%N);
+     PRecv None 12%N false;
+     PSend None 13%N false (mkPmsg [] [43%N]);
+     PRecvDone 1%N 0%N (mkPmsg [] [128; 0; 0; 3; 9]%N);
+     PRecv None 14%N false;
+     PSend None 15%N false (mkPmsg [] [44%N])].
+  Theorem resp_law_refuted_pinned_sbusy : exists ops, replay_run view_resp (resp_step rf_bad) ls_init resp_init ops = None.
+  Proof. exists resp_bad_hist. vm_compute. reflexivity. Qed.
+  Lemma resp_bad_hist_prefix_ok :
+    (exists r, replay_run view_resp (resp_step rf_bad) ls_init resp_init (removelast resp_bad_hist) = Some r) /\
+    (exists r, replay_run view_resp (resp_step rfix_all) ls_init resp_init resp_bad_hist = Some r).
+  Proof. split; vm_compute; eexists; reflexivity. Qed.
+End RespClose.
+
+Print Assumptions rep_close_drains.
+Print Assumptions resp_close_drains.
+Print Assumptions rep_law_refuted_pinned_saio.
+Print Assumptions resp_law_refuted_pinned_sbusy.
